@@ -28,19 +28,22 @@ EvAccept == /\ IsEv("Accept") /\ ~Ev.as /\ st[Ev.s] = "none"
 EvConnect == /\ IsEv("Connect") /\ ~Ev.as /\ st[Ev.s] \in {"none", "returned"}
              /\ st' = [st EXCEPT ![Ev.s] = "open"] /\ seen' = seen \cup {Ev.s}
 EvData == IsEv("Data") /\ ~Ev.as /\ st[Ev.s] = "open" /\ Same
-EvClose == /\ IsEv("Close") /\ ~Ev.as /\ st[Ev.s] \in {"none", "returned", "open"}
+EvClose == /\ IsEv("Close") /\ ~Ev.as /\ st[Ev.s] \in {"none", "returned", "nohs", "open"}
            /\ st' = [st EXCEPT ![Ev.s] = "closed"] /\ UNCHANGED seen
 
 EvConnCall == IsEv("ConnCall") /\ Same
+\* (nc: the target drops SYNs - the attempt is never announced as connected: "nohs" admits a close only)
 EvConnRet == /\ IsEv("ConnRet") /\ (Ev.af => ~Ev.ok)
              /\ IF Ev.ok /\ Ev.s # 0
                   THEN /\ seen' = seen \cup {Ev.s}
-                       /\ st' = IF st[Ev.s] = "none" THEN [st EXCEPT ![Ev.s] = "returned"] ELSE st
+                       /\ Ev.nc => st[Ev.s] # "open"
+                       /\ st' = IF st[Ev.s] = "none" THEN [st EXCEPT ![Ev.s] = IF Ev.nc THEN "nohs" ELSE "returned"] ELSE st
                   ELSE Same
 \* connectSync: like connect, and a successful one has been announced by then or is about to be (C04's clauses proper are
 \* decided on the scripted engine, where the completion can be placed at will)
 EvSyncConnCall == IsEv("SyncConnCall") /\ Same
-EvSyncConnRet == /\ IsEv("SyncConnRet") /\ (Ev.af => ~Ev.ok)
+\* (nc: the target is a port nobody listens on or a listener that drops SYNs - no handshake can complete, success is a lie)
+EvSyncConnRet == /\ IsEv("SyncConnRet") /\ (Ev.af => ~Ev.ok) /\ (Ev.nc => ~Ev.ok)
                  /\ IF Ev.ok /\ Ev.s # 0
                       THEN /\ seen' = seen \cup {Ev.s}
                            /\ st' = IF st[Ev.s] = "none" THEN [st EXCEPT ![Ev.s] = "returned"] ELSE st
@@ -57,6 +60,9 @@ EvCloseRet == IsEv("CloseRet") /\ (Ev.af => ~Ev.ok) /\ Same
 EvListenCall == IsEv("ListenCall") /\ Same
 EvListenRet == IsEv("ListenRet") /\ Same
 EvPeer == IsEv("Peer") /\ Same
+EvAddr == IsEv("Addr") /\ Same
+EvHole == IsEv("Hole") /\ Same
+EvPDrain == IsEv("PDrain") /\ Same
 \* the open-sessions gauge after the engine has settled: what the program expects (e.g. 0 after a connectSync that timed
 \* out - "a timed-out attempt leaves no open connection behind", on either side of the loopback connection)
 EvGauge == IsEv("Gauge") /\ Ev.g = Ev.want /\ Same
@@ -74,6 +80,6 @@ EvEnd == /\ IsEv("End") /\ Ev.outcome \in {"done", "steplimit"}
          /\ Same
 
 Next == EvSyncConnCall \/ EvSyncConnRet \/ EvModeCall \/ EvModeRet \/ EvRecvCall \/ EvRecvRet \/ EvBegin \/ EvReset \/ EvAccept \/ EvConnect \/ EvData \/ EvClose \/ EvConnCall \/ EvConnRet \/ EvSendCall \/ EvSendRet
-        \/ EvCloseCall \/ EvCloseRet \/ EvListenCall \/ EvListenRet \/ EvPeer \/ EvGauge \/ EvLifeCall \/ EvLifeRet \/ EvEnd
+        \/ EvCloseCall \/ EvCloseRet \/ EvListenCall \/ EvListenRet \/ EvPeer \/ EvAddr \/ EvHole \/ EvPDrain \/ EvGauge \/ EvLifeCall \/ EvLifeRet \/ EvEnd
 Spec == Init /\ [][Next]_vars
 ===============================================================================
